@@ -574,6 +574,22 @@ def rule_R21(text, deltas):
     raise AssembleError('R21 does not apply (no `for PAT in EXPR {`)')
 
 
+def rule_R22(text, deltas):
+    """`for (A, B) in X.zip(Y.cycle()) {`  ->  the loop that std's `Zip::next` (`let x = a.next()?; let y = b.next()?`) and
+    `Cycle::next` (`match iter.next() { None => { iter = orig.clone(); iter.next() } y => y }`, `orig` = a clone taken when the
+    adapter is built) spell out; Verus has no spec for iterator adapters.  Applies to the FIRST such `for`."""
+    m = re.search(r'for \((\w+), (\w+)\) in ([\w.()]+?)\.zip\(([\w.()]+?)\.cycle\(\)\) \{', text)
+    if not m:
+        raise AssembleError('R22 does not apply (no `for (A, B) in X.zip(Y.cycle()) {`)')
+    A, B, X, Y = m.groups()
+    new = ('let mut verif_za = %s;\n    let mut verif_zb = %s;\n    let verif_zb0 = verif_zb.clone();\n    loop {\n'
+           '        let %s = match verif_za.next() { Some(verif_v) => verif_v, None => { break; } };\n'
+           '        let %s = match verif_zb.next() { Some(verif_v) => verif_v, None => { verif_zb = verif_zb0.clone(); '
+           'match verif_zb.next() { Some(verif_v) => verif_v, None => { break; } } } };' % (X, Y, A, B))
+    deltas.append(dict(rule='R22', original=m.group(0), rewritten=new))
+    return text[:m.start()] + new + text[m.end():]
+
+
 def rule_R16(text, deltas):
     """`X.extend(IT.map(|PAT| E));`  ->  `for verif_it in IT { let PAT = verif_it; X.push(E); }`
     (Vec::extend over a Map adapter is the push loop; Verus has no spec for iterator adapters)"""
@@ -1251,6 +1267,8 @@ def expand_fn(fs, assumed_override=False, notes=None):
             body = rule_R18(body, deltas)
         if 'R21' in fs.rules:
             body = rule_R21(body, deltas)
+        if 'R22' in fs.rules:
+            body = rule_R22(body, deltas)
         if 'R16' in fs.rules:
             body = rule_R16(body, deltas)
         if 'R17' in fs.rules:
